@@ -47,6 +47,7 @@ class Ty:
     def lean(self) -> str:
         k = self.kind
         if k == "mat": return "QMat"
+        if k == "vec": return "QMat"        # a 1-D array, kept as an n × 1 column (no transpose, no mixing with 2-D arrays)
         if k == "nanmat": return "QMatNp.NanMat"
         if k == "int": return "Int"
         if k == "rat": return "Rat"
@@ -65,6 +66,7 @@ class Ty:
 
 
 MAT, NANMAT, INT, RAT, BOOL, PROP, NONE = Ty("mat"), Ty("nanmat"), Ty("int"), Ty("rat"), Ty("bool"), Ty("prop"), Ty("none")
+VEC = Ty("vec")
 def TList(t): return Ty("list", t)
 def TOpt(t): return Ty("opt", t)
 def TTuple(*ts): return Ty("tuple", *ts)
@@ -72,7 +74,7 @@ def TObj(name): return Ty("obj", name)
 SHAPE = TTuple(INT, INT)
 MASK = TList(BOOL)
 
-MUTABLE = ("mat", "nanmat", "list")
+MUTABLE = ("mat", "vec", "nanmat", "list")
 
 
 LEAN_KEYWORDS = {
@@ -228,6 +230,8 @@ class Unit:
         self.props: dict[tuple[str, str], FnInfo] = {}
         self.prop_defs: dict[str, list[str]] = {}
         self.static_notes: list[str] = []
+        self.imports: dict[str, tuple["Unit", str]] = {}   # dotted callee -> (unit that defines it, function name there)
+        self.dropped: list[str] = []                        # effect-only statements left out of fragments (reported)
 
     # -- classes ---------------------------------------------------------------------------------------------
     def class_by_annotation(self, text: str) -> ClassSpec | None:
@@ -306,6 +310,67 @@ class Unit:
         self.defs.append(info.text)
         return info
 
+    def fragment(self, func: str, lean_name: str, first_binds: str, last_binds: str, inputs: dict[str, Ty],
+                 outputs: list[str], droppable=None, loop_var: str | None = None) -> FnInfo:
+        """a contiguous run of statements of one block of `func` (the function body or the body of a loop/conditional
+        inside it) as a definition: from the first statement of the function that binds `first_binds` to the last
+        statement of the same block that binds `last_binds`; the free variables are the declared `inputs`, the result is
+        the tuple of `outputs`.  Statements for which `droppable(stmt)` holds are left out, provided they bind no local
+        name (stores into outside objects and callbacks: they cannot change the values computed by the fragment); they
+        are listed in the header of the generated file."""
+        node = self.src.find(func)
+        if not isinstance(node, ast.FunctionDef):
+            raise Untranslatable(f"{self.relpath}: {func} is not a function")
+        where = f"{self.relpath}::{func}[{first_binds}..{last_binds}]"
+        found = None
+        def blocks(stmts):
+            yield stmts
+            for st in stmts:
+                if isinstance(st, (ast.For, ast.While)):
+                    yield from blocks(st.body)
+                elif isinstance(st, ast.If):
+                    yield from blocks(st.body); yield from blocks(st.orelse)
+                elif isinstance(st, ast.With):
+                    yield from blocks(st.body)
+        top = strip_doc(node.body)
+        if loop_var is not None:
+            loops = [n for n in ast.walk(node) if isinstance(n, ast.For) and isinstance(n.target, ast.Name) and n.target.id == loop_var]
+            if len(loops) != 1:
+                raise Untranslatable(f"{where}: {len(loops)} loops over `{loop_var}`")
+            top = loops[0].body
+        for blk in blocks(top):
+            # a loop is entered, never taken as a whole; a conditional that binds the name in its branches counts
+            idx = [i for i, st in enumerate(blk) if not isinstance(st, (ast.For, ast.While, ast.With)) and first_binds in assigned_names([st])]
+            if idx:
+                found = (blk, idx[0]); break
+        if found is None:
+            raise Untranslatable(f"{where}: no statement binds `{first_binds}`")
+        blk, i0 = found
+        idx = [i for i, st in enumerate(blk) if i >= i0 and last_binds in assigned_names([st])]
+        if not idx:
+            raise Untranslatable(f"{where}: no later statement of the same block binds `{last_binds}`")
+        body = []
+        for st in blk[i0: idx[-1] + 1]:
+            if droppable is not None and droppable(st):
+                bound = assigned_names([st])
+                if bound:
+                    raise Untranslatable(f"{where}: statement to be dropped binds {bound}: `{ast.unparse(st)[:60]}`")
+                self.dropped.append(f"{func}: `" + " ".join(ast.unparse(st).split())[:100] + "`")
+                continue
+            body.append(st)
+        ret = ast.Return(value=ast.Tuple(elts=[ast.Name(id=o, ctx=ast.Load()) for o in outputs], ctx=ast.Load())
+                         if len(outputs) > 1 else ast.Name(id=outputs[0], ctx=ast.Load()))
+        fn = ast.FunctionDef(name=lean_name, args=ast.arguments(posonlyargs=[], args=[ast.arg(arg=a) for a in inputs],
+                                                                 vararg=None, kwonlyargs=[], kw_defaults=[], kwarg=None, defaults=[]),
+                             body=body + [ret], decorator_list=[], returns=None, type_params=[])
+        ast.fix_missing_locations(fn)
+        qual = f"{func}[{first_binds}..{last_binds}]"
+        self.param_types[qual] = dict(inputs)
+        info = FnTr(self, fn, qual, lean_name=lname(lean_name)).translate()
+        self.fns[qual] = info
+        self.defs.append(info.text)
+        return info
+
     def is_module_function(self, name: str) -> bool:
         return any(isinstance(n, ast.FunctionDef) and n.name == name for n in self.src.tree.body)
 
@@ -335,6 +400,8 @@ class Unit:
         out.append("  `dtype=` keywords are dropped (all numbers are exact rationals).")
         for n in self.static_notes:
             out.append("* " + n)
+        for d in self.dropped:
+            out.append("* left out of a fragment (binds no local name; a store into an outside object or a callback): " + d)
         out.append("-/")
         out.append("import IrisVerif.Model.QMatNp\n")
         out.append("set_option linter.unusedVariables false\n")
@@ -570,7 +637,16 @@ class FnTr:
                     lines.append(self.for_stmt(st, rest, env, depth))
                     continue
                 if isinstance(st, ast.AugAssign):
+                    if isinstance(st.target, ast.Name) and st.target.id in env and env[st.target.id].ty.kind in MUTABLE \
+                            and not self.can_mutate(env, st.target.id):
+                        self.bad(f"in-place `{ast.unparse(st.target)} op= ...` on an array that may have another live holder", st)
                     load = ast.parse(ast.unparse(st.target), mode="eval").body
+                    if isinstance(st.target, ast.Name) and st.target.id in env and env[st.target.id].ty.kind in MUTABLE:
+                        # numpy's `x op= e` updates the object in place: same object afterwards
+                        keep = env[st.target.id].region
+                        lines.extend(ind + l for l in self.assign(st.target, ast.BinOp(left=load, op=st.op, right=st.value), env))
+                        env[st.target.id].region = keep
+                        continue
                     st = ast.Assign(targets=[st.target], value=ast.BinOp(left=load, op=st.op, right=st.value))
                 if isinstance(st, ast.AnnAssign) and st.value is not None:
                     st = ast.Assign(targets=[st.target], value=st.value)
@@ -605,7 +681,25 @@ class FnTr:
         env[name] = Var(v.ty, region, owned)
         return f"let {lname(name)} : {v.ty.lean()} := {v.text}"
 
+    def callable_name(self, node, env: dict) -> str | None:
+        """the dotted name a callee expression stands for, through local function aliases"""
+        d = dotted(node)
+        if d is None:
+            return None
+        head = d.split(".")[0]
+        if head in env and env[head].ty.kind == "fn":
+            return env[head].ty.args[0] + d[len(head):]
+        return d
+
+    NUMPY_FUNCTIONS = ("_np.zeros", "_np.zeros_like", "_np.eye", "_np.copy", "_np.block", "_np.hstack", "_np.vstack",
+                       "_np.concatenate")
+
     def assign(self, target, value, env: dict) -> list[str]:
+        if isinstance(target, ast.Name) and dotted(value) is not None and dotted(value).split(".")[0] not in env \
+                and (dotted(value) in self.unit.externals or dotted(value) in self.NUMPY_FUNCTIONS):
+            # a local alias of a known function: no code, calls through the alias are resolved statically
+            env[target.id] = Var(Ty("fn", dotted(value)), None)
+            return []
         if isinstance(target, ast.Name):
             v = self.expr(value, env)
             if isinstance(value, ast.Name) and value.id in env and env[value.id].ty.kind == "list":
@@ -619,6 +713,13 @@ class FnTr:
         if isinstance(target, (ast.Tuple, ast.List)):
             if not all(isinstance(e, ast.Name) for e in target.elts):
                 self.bad("unpacking into something other than names", target)
+            if isinstance(value, ast.Tuple) and len(value.elts) == len(target.elts) \
+                    and not any(occurs(e.id, [value]) for e in target.elts):
+                # a, b = e1, e2 where no target occurs on the right: the same as a = e1; b = e2
+                out = []
+                for e, val in zip(target.elts, value.elts):
+                    out.extend(self.assign(e, val, env))
+                return out
             v = self.expr(value, env)
             n = len(target.elts)
             if v.ty.kind != "tuple" or len(v.ty.args) != n:
@@ -757,6 +858,11 @@ class FnTr:
         self.bad("expression statement outside the subset", call)
 
     # -- conditionals --------------------------------------------------------------------------------------------
+    @staticmethod
+    def is_none_compare(test) -> bool:
+        return (isinstance(test, ast.Compare) and len(test.ops) == 1 and isinstance(test.ops[0], (ast.Is, ast.IsNot))
+                and isinstance(test.comparators[0], ast.Constant) and test.comparators[0].value is None)
+
     def none_test(self, test, env: dict):
         """(name, positive) for `name is not None` / `name is None`, else None"""
         if isinstance(test, ast.Compare) and len(test.ops) == 1 and isinstance(test.left, ast.Name) \
@@ -769,6 +875,24 @@ class FnTr:
         """Lean term `if test then then_fn(env) else else_fn(env)`; the two callbacks get their own copy of env and
         return text indented at depth+1"""
         ind = "  " * depth
+        if isinstance(test, ast.BoolOp) and isinstance(test.op, ast.And) and len(test.values) >= 2 \
+                and any(self.is_none_compare(v) for v in test.values):
+            # `a and b`: test a, then b; the else-branch is taken from either
+            first, rest = test.values[0], test.values[1:]
+            rest_test = rest[0] if len(rest) == 1 else ast.BoolOp(op=ast.And(), values=rest)
+            inner = lambda e: ind + "  (\n" + self.branch(rest_test, e, then_fn, else_fn, depth + 1) + ")"
+            return self.branch(first, env, inner, else_fn, depth)
+        if self.is_none_compare(test) and not isinstance(test.left, ast.Name):
+            # `<expr> is [not] None` for an Option-valued expression: no refinement, the branches re-evaluate the expression
+            v = self.expr(test.left, env)
+            if v.ty.kind != "opt":
+                self.bad(f"`is None` test of a value of type {v.ty}", test)
+            positive = isinstance(test.ops[0], ast.IsNot)
+            some_fn, none_fn = (then_fn, else_fn) if positive else (else_fn, then_fn)
+            e1, e2 = dict(env), dict(env)
+            a, b = some_fn(e1), none_fn(e2)
+            self.merge_back(env, [e1, e2])
+            return f"{ind}match {v.text} with\n{ind}| some _ =>\n{a}\n{ind}| none =>\n{b}"
         nt = self.none_test(test, env)
         if nt is not None:
             name, positive = nt
@@ -1028,6 +1152,8 @@ class FnTr:
             return Val("none", ty)
         if ty == MAT and v.ty == TOpt(MAT):
             return self.as_mat(v, node)
+        if ty == VEC and v.ty == TOpt(VEC):
+            return Val(f"(QMatNp.unwrap {v.text})", VEC, v.region, v.temp)
         if ty == RAT and v.ty == INT:
             return Val(self.to_rat(v), RAT)
         self.bad(f"a value of type {v.ty} where {ty} is needed", node)
@@ -1063,6 +1189,8 @@ class FnTr:
                 var = env[node.id]
                 if var.ty == NONE:
                     self.bad(f"`{node.id}` may be unbound here", node)
+                if var.ty.kind == "fn":
+                    self.bad(f"function alias `{node.id}` used as a value", node)
                 return Val(lname(node.id), var.ty, var.region, False, var.owned_elems)
             self.bad(f"free name `{node.id}` resolves to nothing", node)
         if isinstance(node, ast.Attribute):
@@ -1149,6 +1277,16 @@ class FnTr:
             if n.ty != INT:
                 self.bad("[None] * (non-int)", node)
             return Val(f"(QMatNp.replicate {n.text} (none : Option QMat))", TList(TOpt(MAT)), self.fresh_region(), True, True)
+        for side in ("right", "left"):
+            sub = getattr(node, side)
+            if isinstance(sub, ast.IfExp):
+                try:
+                    self.ifexp(sub, dict(env))
+                except Untranslatable:
+                    # x op (u if c else v)  ==  (x op u) if c else (x op v)
+                    mk = lambda branch: ast.BinOp(left=node.left if side == "right" else branch, op=node.op,
+                                                  right=branch if side == "right" else node.right)
+                    return self.ifexp(ast.IfExp(test=sub.test, body=mk(sub.body), orelse=mk(sub.orelse)), env)
         a, b = self.expr(node.left, env), self.expr(node.right, env)
         op = node.op
         num = lambda v: v.ty in (INT, RAT)
@@ -1169,6 +1307,19 @@ class FnTr:
             if isinstance(op, ast.Mult): return Val(f"({x} * {y})", RAT)
             if isinstance(op, ast.Div): return Val(f"({x} / {y})", RAT)
             self.bad("scalar operator outside the subset", node)
+        veclike = lambda v: v.ty in (VEC, TOpt(VEC))
+        if veclike(a) or veclike(b):
+            freshv = lambda text: Val(text, VEC, self.fresh_region(), True)
+            if veclike(b) and matlike(a) and isinstance(op, ast.MatMult):
+                return freshv(f"({self.as_mat(a, node).text} * {self.coerce(b, VEC, node).text})")
+            if veclike(a) and veclike(b) and isinstance(op, (ast.Add, ast.Sub)):
+                sym = "+" if isinstance(op, ast.Add) else "-"
+                return freshv(f"({self.coerce(a, VEC, node).text} {sym} {self.coerce(b, VEC, node).text})")
+            if num(a) and veclike(b) and isinstance(op, ast.Mult):
+                return freshv(f"(QMat.smul {self.to_rat(a)} {self.coerce(b, VEC, node).text})")
+            if veclike(a) and num(b) and isinstance(op, ast.Mult):
+                return freshv(f"(QMat.smul {self.to_rat(b)} {self.coerce(a, VEC, node).text})")
+            self.bad(f"operator on a 1-D array and a value of type {b.ty if veclike(a) else a.ty} (would broadcast or is outside the subset)", node)
         if matlike(a) and matlike(b):
             x, y = self.as_mat(a, node).text, self.as_mat(b, node).text
             if isinstance(op, ast.MatMult): return fresh(f"({x} * {y})")
@@ -1235,7 +1386,7 @@ class FnTr:
             if i.ty != INT:
                 self.bad("list index is not an int", node)
             et = base.ty.args[0]
-            default = {"opt": "none", "mat": "(QMat.zero 0 0)", "int": "0", "rat": "0", "bool": "false"}.get(et.kind)
+            default = {"opt": "none", "mat": "(QMat.zero 0 0)", "vec": "(QMat.zero 0 0)", "int": "0", "rat": "0", "bool": "false"}.get(et.kind)
             if default is None:
                 self.bad(f"indexing a list of {et}", node)
             return Val(f"(QMatNp.listGet {base.text} {i.text} {default})", et, ("elem", base.region) if et.kind in MUTABLE or et.kind == "opt" else None)
@@ -1247,6 +1398,8 @@ class FnTr:
             if len(elts) != 2:
                 self.bad("array subscript that is not [rows, cols]", node)
             r, c = elts
+            if isinstance(c, ast.Constant) and c.value is Ellipsis:
+                c = ast.Slice(lower=None, upper=None, step=None)      # X[a:b, ...] on a 2-D array
             if isinstance(r, ast.Slice) and isinstance(c, ast.Slice):
                 b = self.slice_bounds(r, env) + self.slice_bounds(c, env)
                 return Val(f"(QMatNp.slice {m.text} {' '.join(b)})", MAT, m.region, m.temp)     # a view
@@ -1254,6 +1407,10 @@ class FnTr:
                 i, j = self.expr(r, env), self.expr(c, env)
                 if i.ty == INT and j.ty == INT:
                     return Val(f"(QMatNp.entry {m.text} {i.text} {j.text})", RAT)
+            if isinstance(r, ast.Slice) and r.lower is None and r.upper is None and r.step is None and not isinstance(c, ast.Slice):
+                j = self.expr(c, env)
+                if j.ty == INT:
+                    return Val(f"(QMatNp.colAt {m.text} {j.text})", VEC, m.region, m.temp)      # X[:, t]: a 1-D view
             self.bad("array subscript mixing an index and a slice (would change the rank), or a fancy index", node)
         self.bad(f"subscript of a value of type {base.ty}", node)
 
@@ -1316,7 +1473,9 @@ class FnTr:
 
     def call(self, node: ast.Call, env: dict) -> Val:
         f = node.func
-        name = dotted(f)
+        name = self.callable_name(f, env)
+        if isinstance(f, ast.Name) and f.id in env and env[f.id].ty.kind == "fn":
+            f = ast.parse(name, mode="eval").body
         fresh = lambda text, ty=MAT, owned=False: Val(text, ty, self.fresh_region(), True, owned)
         # ---- methods of values
         if isinstance(f, ast.Attribute) and not (isinstance(f.value, ast.Name) and f.value.id not in env) and name not in self.unit.externals:
@@ -1348,7 +1507,7 @@ class FnTr:
                 self.bad(f"len() of a value of type {v.ty}", node)
             return Val(f"(({v.text}.length : Nat) : Int)", INT)
         # ---- numpy constructors
-        if name in ("_np.zeros", "_np.zeros_like", "_np.eye", "_np.copy", "_np.block", "_np.hstack", "_np.vstack"):
+        if name in self.NUMPY_FUNCTIONS:
             self.kw_ok(node)
             args = node.args
             if name == "_np.zeros" and len(args) == 1:
@@ -1377,8 +1536,8 @@ class FnTr:
                 for r in rows[1:]:
                     text = f"(QMat.vstack {text} {r})"
                 return fresh(text)
-            if name in ("_np.hstack", "_np.vstack") and len(args) == 1:
-                fn = name[4:]
+            if name in ("_np.hstack", "_np.vstack", "_np.concatenate") and len(args) == 1:
+                fn = "vstack" if name == "_np.concatenate" else name[4:]      # concatenate: axis 0
                 seq = self.seq_args(args[0], env)
                 if isinstance(seq, list):
                     if all(v.ty == MASK for v in seq) and fn == "hstack":
@@ -1396,7 +1555,8 @@ class FnTr:
                 self.bad(f"external routine {name} called with {len(node.args)} positional arguments", node)
             args = [self.coerce(self.expr(a, env), t, node).text for a, t in zip(node.args, x.args)]
             self.use_ext(name)
-            return Val(f"({x.lean} {' '.join(args)})", x.ret, self.fresh_region() if x.ret.kind in MUTABLE else None, True)
+            text = f"({x.lean} {' '.join(args)})" if args else x.lean
+            return Val(text, x.ret, self.fresh_region() if x.ret.kind in MUTABLE else None, True)
         # ---- closures and functions of the module
         info = None
         tr: FnTr | None = self
@@ -1405,6 +1565,14 @@ class FnTr:
             tr = tr.parent
         if info is None and "." not in name and name not in env and self.unit.is_module_function(name):
             info = self.unit.function(name)
+        if info is None and name in self.unit.imports:
+            other, fname = self.unit.imports[name]
+            base = other.function(fname)
+            info = FnInfo()
+            info.__dict__.update(base.__dict__)
+            info.lean = f"{other.namespace}.{base.lean}"
+            if base.ext_used:
+                self.bad(f"imported function `{name}` calls an external routine", node)
         if info is None:
             self.bad(f"call to `{name}` resolves to nothing", node)
         return self.user_call(info, node, env)
